@@ -321,6 +321,8 @@ def fields_rules(body, root_kw=None):
         Rule("T", Clo(Choice(Lit("a"), Lit("b")), plus=True), string=True, no_skip_ws=True),
         Rule("D", Choice(Lit("a"), Lit("b")), string=True, no_skip_ws=True),
         Rule("T2", Seq(Clo(Lit("a"), plus=True), Opt(Seq(Lit("b"), Clo(Lit("a"), plus=True)))), string=True, no_skip_ws=True),
+        Rule("Z", Clo(Lit("b")), string=True, no_skip_ws=True),                 # matches nothing as well
+        Rule("ZS", Seq(Opt(Call("A", "p")), Clo(Call("D", "q"))), no_skip_ws=True),
     ]
 
 
@@ -364,6 +366,12 @@ def fam_fields(tier, seed):
         ("clo_two_fields_partial", lambda: Seq(Clo(Seq(Call("A", "x"), Call("B", "y"), Lit("c"))), Lit("a"))),
         ("choice_two_fields_partial", lambda: Choice(Seq(Call("A", "x"), Call("B", "y"), Lit("c")), Seq(Call("A", "x"), Lit("c")))),
         ("choice_backtrack_field", lambda: Choice(Seq(Call("A", "x"), Lit("c")), Seq(Call("A", "y"), Call("B", "x")))),
+        # a match of zero bytes is a match: the field holds the (empty) value, the optional around it was taken
+        ("opt_nullable_string_field", lambda: Seq(Opt(Call("Z", "x")), Lit("c"), Opt(Call("Z", "y")))),
+        ("opt_nullable_struct_field", lambda: Seq(Lit("c"), Opt(Call("ZS", "x")), Lit("c"))),
+        ("opt_two_nullable_fields", lambda: Seq(Opt(Seq(Call("Z", "x"), Call("ZS", "y"))), Lit("c"))),
+        ("opt_nested_nullable", lambda: Seq(Opt(Seq(Call("Z", "x"), Opt(Call("ZS", "y")))), Opt(Lit("c")))),
+        ("choice_nullable_field_alt", lambda: Seq(Choice(Seq(Lit("c"), Call("Z", "x")), Call("ZS", "y")), Opt(Lit("c")))),
         # an empty alternative always matches: written first it makes the later ones unreachable
         ("leading_empty_alt", lambda: Seq(Choice(Seq(), Call("A", "x")), Call("B", "y"))),
         ("leading_empty_alt_top", lambda: Choice(Seq(), Call("A", "x"), Call("B", "x"))),
@@ -448,6 +456,9 @@ def fam_ws(tier, seed):
         ("ci", Seq(Lit("A", ci=True), Lit("ab", ci=True))),
         ("explicit_ws", Seq(Lit("a"), Call("Whitespace"), Lit("b"))),
         ("empty_lit", Seq(Lit(""), Lit("a"))),
+        ("empty_lit_last", Seq(Lit("a"), Lit(""))),
+        ("empty_lit_last_in_string_rule", Seq(Call("VE", "v"), Opt(Lit("b")))),
+        ("empty_ci_lit_between", Seq(Lit("a"), Lit("", ci=True), Call("N", "n"))),
         ("choice_ws", Choice(Seq(Lit("a"), Lit("a")), Seq(Lit("a"), Lit("b")))),
         ("eoi_only", Eoi()),
         ("choice_opt_alt", Seq(Lit("a"), Choice(Lit("b"), Opt(Lit("a"))), Opt(Call("N", "n")))),
@@ -462,7 +473,8 @@ def fam_ws(tier, seed):
         ("call_nullable_in_clo", Seq(Clo(Seq(Lit("a"), Call("Z", "z"))), Eoi())),
         ("call_nullable_override", Seq(Call("ZO", "o"), Call("ZO", "p"), Eoi())),
     ]
-    extra = [Rule("Z", Clo(Call("F", "fs"))), Rule("ZN", Clo(Call("F", "fs")), no_skip_ws=True), Rule("F", Lit("b"), position=True),
+    extra = [Rule("VE", Seq(Lit("a"), Lit("")), string=True, position=True),
+             Rule("Z", Clo(Call("F", "fs"))), Rule("ZN", Clo(Call("F", "fs")), no_skip_ws=True), Rule("F", Lit("b"), position=True),
              Rule("KK", Seq(Lit("a"), Call("Z", "z")), position=True), Rule("ZO", Opt(Call("F", "@"))),
              Rule("V", Seq(Lit("a"), Choice(Lit("b"), Opt(Lit("a")))), string=True, position=True),
              Rule("T", Clo(Range("a", "b"), plus=True), string=True, no_skip_ws=True),
@@ -596,6 +608,13 @@ def memo_bases():
                       export=True, no_skip_ws=True),
                  fwd, Rule("B", Seq(Lit("a"), Opt(Lit("a"))), no_skip_ws=True, position=True)],
                 ["a", "x", "y", "z"], ["B"]))
+    # the second request of a memoized rule at one offset is the one the successful path uses; what follows it
+    # (trailing whitespace) is observable in the parent's range / by a non-skipping caller
+    out.append(("memo_reask_before_trailing_ws",
+                [Rule("S", Choice(Seq(Call("L", "l"), Lit("!")), Seq(Call("L", "l"), Lit(" "), Opt(Lit("?")))), export=True, no_skip_ws=True, position=True),
+                 Rule("L", Choice(Seq(Call("M", "m"), Lit("="), Call("M", "n")), Call("M", "m")), position=True),
+                 Rule("M", Seq(Lit("a"), Clo(Lit("a"))), string=True, position=True)],
+                ["a", " ", "=", "!"], ["L", "M"]))
     # a user function that itself runs a generated parser (a parse inside a parse, on the same thread)
     out.append(("nested_parse_in_extern",
                 [Rule("S", Choice(Seq(Call("M", "m"), Lit("x")), Seq(Call("M", "m"), Opt(Lit("y")), Opt(Call("M", "n")))), export=True, no_skip_ws=True, position=True),
@@ -794,6 +813,16 @@ def lr_bases():
         Rule("Add", Seq(Call("E", "l", boxed=True), Lit("+"), Call("N", "r")), no_skip_ws=True),
         Rule("Par", Seq(Lit("("), Call("E", "e", boxed=True), Lit(")")), no_skip_ws=True),
         Rule("N", Lit("1"), no_skip_ws=True, string=True)], "E", ["1", "+", "-", "(", ")"], False))
+    out.append(("base_fails_in_neg_lookahead", [
+        Rule("E", Choice(Seq(Call("E", "l", boxed=True), Lit("+"), Call("T", "r")), Call("T", "t")), export=True, no_skip_ws=True, leftrec=True),
+        Rule("T", Seq(Neg(Call("K")), Call("I", "name"), Opt(Seq(Lit("["), Call("E", "idx", boxed=True), Lit("]")))), no_skip_ws=True),
+        Rule("K", Seq(Lit("e"), Neg(Call("C"))), no_skip_ws=True),
+        Rule("I", Clo(Call("C"), plus=True), string=True, no_skip_ws=True),
+        CharRule("C", [("lit", "a"), ("lit", "e")])], "E", ["a", "e", "+", "[", "]"], True))
+    out.append(("recursion_through_include", [
+        Rule("E", Choice(Inc("Tail"), Call("N", "first")), export=True, no_skip_ws=True, leftrec=True),
+        Rule("Tail", Seq(Call("E", "left", boxed=True), Lit("+"), Call("N", "right")), no_skip_ws=True),
+        Rule("N", Lit("n"), no_skip_ws=True, string=True)], "E", ["n", "+", "x"], True))
     # both directives on one rule (redundant but legal: @leftrec implies the cache)
     out.append(("leftrec_and_memoize", [Rule("A", Choice(Seq(Call("A", "l", boxed=True), Lit("x")), Lit("b")),
                                              export=True, no_skip_ws=True, leftrec=True, memoize=True)], "A", ["b", "x", "y"], True))
@@ -1024,6 +1053,8 @@ def fam_inc(tier, seed):
         Rule("LooseN", Seq(Lit("("), Inc("New2"), Lit(")"))),
         Rule("TightN", Seq(Lit("("), Inc("New2"), Lit(")")), no_skip_ws=True),
         Rule("New2", Inc("PairK")),
+        Rule("PairKList", Seq(Inc("PairK"), Clo(Seq(Lit(","), Inc("PairK"))))),
+        Rule("PairKListOuter", Seq(Lit("("), Inc("PairKList"), Lit(")"))),
         Rule("A", Lit("a")), Rule("B", Lit("b"), no_skip_ws=True)]
     sites = [
         ("plain", Seq(Inc("I1"), Lit("b"))),
@@ -1048,6 +1079,9 @@ def fam_inc(tier, seed):
         ("include_boxed_self_nested", Seq(Lit("("), Opt(Inc("I9")), Lit(")"), Clo(Inc("I9")))),
         ("sole_include_noskip_target", Seq(Call("New", "n"), Opt(Call("New", "m")))),
         ("sole_include_skip_target", Seq(Call("NewN", "n"), Opt(Call("NewN", "m")))),
+        # nested includes whose names contain one another (PairKListOuter > PairKList > PairK): no cycle
+        ("nested_similar_names", Seq(Inc("PairKList"), Opt(Lit(")")))),
+        ("nested_similar_names_deeper", Seq(Inc("PairKListOuter"), Eoi())),
         # one rule included from two rules with the same fields and different whitespace modes, in both orders
         ("two_includers_tight_first", Seq(Opt(Call("Tight", "t")), Opt(Call("Loose", "l")), Clo(Call("char")))),
         ("two_includers_loose_first", Seq(Opt(Call("Loose", "l")), Opt(Call("Tight", "t")), Clo(Call("char")))),
@@ -1194,6 +1228,16 @@ def fam_user(tier, seed):
         mk("chk_reject_inner_failures_" + kind,
            [Rule("S", Choice(Seq(Call("O", "o"), Lit("!")), Lit("!")), export=True, no_skip_ws=True), orule,
             Rule("AA", Seq(Lit("a"), Clo(Lit("a"))), no_skip_ws=True, string=True), Rule("B", Lit("b"), no_skip_ws=True)], ["a", "b", "!"])
+    # functions named by relative paths (the calls are generated inside `mod peginator_generated` of the grammar module)
+    mk("relative_paths", [Rule("S", Seq(Call("Sm", "s"), Opt(Call("V", "v")), Opt(Call("Dg", "d"))), export=True, no_skip_ws=True),
+                          Rule("Sm", Seq(Lit("a"), Clo(Lit("a"))), no_skip_ws=True, string=True,
+                               checks=[{"o": "str_len_le", "n": 2, "path": "~super::super::user::rel_short", "name": "~super::super::user::rel_short",
+                                        "rust": "pub fn rel_short(v: &String) -> bool { logged(\"rel_short\", v, v.len() <= 2) }"}]),
+                          CharRule("V", [("range", "a", "c")],
+                                   checks=[{"o": "char_not", "c": "b", "path": "~super::super::user::rel_notb", "name": "~super::super::user::rel_notb",
+                                            "rust": "pub fn rel_notb(c: char) -> bool { logged(\"rel_notb\", &c, c != 'b') }"}]),
+                          ExternRule("Dg", {"o": "digits", "path": "super::super::user::ext_digits", "nullable": False})],
+       ["a", "b", "1"])
     # several checks on one rule whose functions have the same name in different modules; the same function on two rules
     mk("chk_same_name_other_module",
        [Rule("S", Choice(Call("N", "n"), Call("M", "m"), Call("R", "r")), export=True, no_skip_ws=True),
@@ -1242,7 +1286,10 @@ def fam_user(tier, seed):
             rules[0].position = True     # byte offsets after an extern match are observable in the root's range
         for r in rules:
             for c in getattr(r, "checks", []):
-                if c["path"].startswith("@"):
+                if c["path"].startswith("~"):
+                    c["path"] = c["name"] = c["path"][1:]
+                    user_rs.append(c["rust"])
+                elif c["path"].startswith("@"):
                     fn = c["path"][1:]
                     c["path"] = "crate::cases::g_%s::user::%s" % (gid, fn)
                     c["name"] = c["path"]
@@ -1506,6 +1553,16 @@ def fam_term(tier, seed):
             g.alpha = g.alpha[:4] + ["\u3042", "\U0001F600", "\u00c1", "\u041f", "a"]
             g.maxlen = 2
         add_extras(g, rnd, 10, 3, 6)
+        if well_formed(g):
+            out.append(g)
+    # case-insensitive literals with letters written as escapes (every escape form, both cases)
+    for nm, text, lit in (("x41_b", "i'\\x41b'", "Ab"), ("u0042", "i\"\\u0042\\u{62}z\"", "Bbz"), ("U_upper", "i'0\\U00000058'", "0X"),
+                          ("lower_escape", "i'\\x61\\x5a'", "aZ")):
+        g = Grammar("term_%04d" % len(out), [Rule("S", Seq(Lit(lit, ci=True), Opt(Call("char", "c"))), export=True, position=True, no_skip_ws=True)],
+                    root="S", maxlen=2, meta={"shape": "ci_escaped_" + nm,
+                                              "text": "@export\n@position\n@no_skip_ws\nS = %s [c:char];\n" % text})
+        g.alpha = list(dict.fromkeys(list(lit.lower()) + list(lit.upper())))[:5]
+        g.extra = [list(lit), list(lit.lower()), list(lit.upper()), list(lit.swapcase()), list(lit + "a")]
         if well_formed(g):
             out.append(g)
     # @char classes: overlapping and descending parts, single characters next to ranges, a class inside a class
